@@ -68,6 +68,26 @@ def pool(rng):
     return out
 
 
+def _py_pool():
+    import glom as G
+    from glom.grouping import Group
+    return {
+        # name -> (target builder, spec builder): specs outside the interpreter model's AST, built directly
+        'group_flatten': (lambda: [[1, 2], [3], [1, 4]], lambda: Group({G.T[0]: G.Flatten()})),
+        'group_fold_list': (lambda: [[1], [2], [1, 3]], lambda: Group({len: G.Fold(G.T, init=list)})),
+        'flatten': (lambda: [[1, [2]], [3]], lambda: G.Flatten()),
+        'merge': (lambda: [{'a': 1}, {'b': 2}, {'a': 3}], lambda: G.Merge()),
+        'sum_lists': (lambda: [[1], [2, 3]], lambda: G.Sum(init=list)),
+        'iter_all': (lambda: [3, 1, 2], lambda: G.Iter().map(G.T * 2).all()),
+        'arg_list': (lambda: {'rows': [{'id': 1}, {'id': 2}]},
+                     lambda: ('rows', [G.Coalesce('name', default=[G.T['id'], 'n/a'])])),
+        'arg_dict_call': (lambda: [1, 2, 3], lambda: [G.Call(dict, kwargs={'v': G.T})]),
+    }
+
+
+PY_NAMES = ['arg_dict_call', 'arg_list', 'flatten', 'group_flatten', 'group_fold_list', 'iter_all', 'merge', 'sum_lists']
+
+
 def generate(rng, tier, scale, **focus):
     n = (16 if tier == 'quick' else 300) * scale
     for i in range(n):
@@ -87,8 +107,16 @@ def generate(rng, tier, scale, **focus):
                 ops.append({'op': 'set_star', 'v': rng.random() < 0.5})
             else:
                 ops.append({'op': 'register'})
-        yield {'pool': [{'target': t, 'spec': s} for t, s in pl], 'ops': ops,
-               'fresh_budget': 4 if tier == 'quick' else 7}
+        names = PY_NAMES
+        entries = [{'target': t, 'spec': s} for t, s in pl] + [{'py': n} for n in names]
+        # cross evaluations: the same spec object on another pool entry's target
+        for o in ops:
+            if o['op'] == 'glom':
+                if rng.random() < 0.35:
+                    o['idx'] = len(pl) + rng.randrange(len(names))
+                elif rng.random() < 0.3:
+                    o['tidx'] = rng.randrange(len(pl))
+        yield {'pool': entries, 'ops': ops, 'fresh_budget': 4 if tier == 'quick' else 7}
 
 
 def corpus():
@@ -137,6 +165,10 @@ def outcome(target, spec, star):
     return out
 
 
+def strip_fn_names(oc):
+    return json.loads(json.dumps(oc))
+
+
 def fresh_outcome(args):
     """runs in a freshly spawned interpreter: the call is the first glom call it ever makes"""
     import sys
@@ -168,10 +200,13 @@ def run_impl(case):
     Path._CACHE = {True: {}, False: {}}
     gc.PATH_STAR = True
     registered = []
-    objs = []
-    for entry in case['pool']:
+    def build_entry(entry):
+        if 'py' in entry:
+            tb, sb = _py_pool()[entry['py']]
+            return (tb(), sb())
         fns = {}
-        objs.append((ic.dec(entry['target'], fns), ic.build(entry['spec'], fns)))
+        return (ic.dec(entry['target'], fns), ic.build(entry['spec'], fns))
+    objs = [build_entry(e) for e in case['pool']]
     first = {}
     fresh_jobs = []
     ops_out = []
@@ -195,6 +230,8 @@ def run_impl(case):
                 registered.append(cls)
             elif op['op'] == 'glom':
                 t, s = objs[op['idx']]
+                if 'tidx' in op:
+                    t = objs[op['tidx']][0]          # the same spec object on another target
                 keys_before = {b: set(Path._CACHE[b]) for b in (True, False)}
                 before = (snapshot(t), repr(s), snapshot(s) if isinstance(s, (list, tuple, dict)) else None)
                 oc = outcome(t, s, gc.PATH_STAR)
@@ -203,12 +240,18 @@ def run_impl(case):
                 # texts this call parsed and stored (the model replays them to stay in step)
                 o['impl_new_keys'] = sorted([b, k] for b in (True, False)
                                             for k in set(Path._CACHE[b]) - keys_before[b])
-                keyf = (op['idx'], gc.PATH_STAR)
+                # outcome must not depend on the history of this spec *object*: compare with freshly
+                # built, structurally identical objects evaluated right now
+                t2 = build_entry(case['pool'][op.get('tidx', op['idx'])])[0]
+                s2 = build_entry(case['pool'][op['idx']])[1]
+                oc2 = outcome(t2, s2, gc.PATH_STAR)
+                o['same_as_rebuilt'] = (strip_fn_names(oc2) == strip_fn_names(oc))
+                keyf = (op['idx'], op.get('tidx'), gc.PATH_STAR)
                 if keyf not in first:
                     first[keyf] = oc
                 o['same_as_first'] = (first[keyf] == oc)
                 o['same_as_fresh'] = None
-                if budget > 0 and len(registered) == 0:
+                if budget > 0 and len(registered) == 0 and 'py' not in case['pool'][op['idx']] and 'tidx' not in op:
                     budget -= 1
                     entry = case['pool'][op['idx']]
                     fresh_jobs.append((len(ops_out), oc,
@@ -250,7 +293,7 @@ def _prune(tree, cls):
 
 def key(case):
     return {'ops': [{k: v for k, v in o.items() if not k.startswith('impl') and k not in
-                     ('same_as_first', 'same_as_fresh', 'inputs_unchanged', 'fresh', 'here')} for o in case['ops']],
+                     ('same_as_first', 'same_as_fresh', 'same_as_rebuilt', 'inputs_unchanged', 'fresh', 'here')} for o in case['ops']],
             'pool': case['pool']}
 
 
@@ -269,7 +312,7 @@ def nontrivial(case, verdict):
 
 def shrink(case):
     base = {k: v for k, v in case.items() if not k.startswith('impl')}
-    ops = [{k: v for k, v in o.items() if k in ('op', 'text', 'prefix', 'n', 'v', 'idx')} for o in case['ops']]
+    ops = [{k: v for k, v in o.items() if k in ('op', 'text', 'prefix', 'n', 'v', 'idx', 'tidx')} for o in case['ops']]
     n = len(ops)
     step = max(n // 2, 1)
     while step >= 1:
